@@ -46,7 +46,7 @@ m = {
    'level_claimed': {'category': 'exploration',
       'text': "Seeded search over histories (sequences of run.single / pipeline / CLI calls and step-level API calls on several molecules interleaved by a seeded scheduler, with interleaved inputs, options and parameter files; crash sweeps aimed at in-flight process state), object-address layouts, hash seeds, working directories with decoy files, calendar dates, I/O faults and crashes at arbitrary propka lines. Every call's full observation record (groups, determinants, profiles, pI, hydrogens, .pka text minus date line) must equal, bit for bit, the record of the same content+options run alone in a pristine interpreter. A clean batch is evidence, not proof; the property quantifies over histories and schedules, which only sampling under a controlled simulator can reach.",
       'design_ref': 'DESIGN.md §3, §4, §12'},
-   'level_note': "Differential oracle: the reference is the same code, so defects common to every execution are invisible. Simulated addresses are 16-byte aligned distinct values (any such layout is realisable by CPython); native-address runs are sampled and converted to recorded-address replays. The reference interpreter runs under the canonical hash seed 0 and a canonical address layout. The worker's hash seed, clock, working directory and process environment (HOME with decoy configuration files, TZ, LC_ALL, PROPKA_* variables, python -O) vary; the reference keeps canonical ones; the Python version and logging configuration are equal on both sides. Log output is not observed. No concurrent callers.",
+   'level_note': "Differential oracle: the reference is the same code, so defects common to every execution are invisible. Simulated addresses are 16-byte aligned distinct values (any such layout is realisable by CPython); under simulated layouts builtins.id is served for propka objects by a simulated allocator that recycles dead objects' addresses (seeded); native-address runs are sampled and converted to recorded-address replays. The reference interpreter runs under the canonical hash seed 0 and a canonical address layout. The worker's hash seed, clock, working directory and process environment (HOME with decoy configuration files, TZ, LC_ALL, PROPKA_* variables, python -O) vary; the reference keeps canonical ones; the Python version and logging configuration are equal on both sides. Log output is not observed. No concurrent callers.",
   },
  ],
  'not_applicable': [{'property_id': k, 'reason': v} for k, v in sorted(NA.items())],
@@ -62,7 +62,7 @@ if with_c12:
    'engine': 'sim',
    'technique': "fault injection at the reader seam: enumeration of storage/transport record-loss patterns (truncation, lost record, lost block, lost head, multiple losses) at every record boundary, checked against an executable reference model of the statement",
    'level_claimed': {'category': 'fault_enumeration',
-      'text': "RESTRICTED SCOPE: C12 is decided only for the loss patterns a storage or transport fault produces at the reader seam - crash-truncation, one lost record, lost blocks, lost head at every record boundary, runs/windows/pairs of whole residues, partial residues, periodic loss (exhaustive per workload file) plus seeded multiple and random-rate losses (patterns F1-F13, DESIGN 12.6), every subset of the records of one small residue and seeded subsets of larger residues/ligands (F14), and name-keyed systematic losses such as CA-only / backbone-only / OXT-stripped files (F15, F16) - delivered as path, stream and CLI input; not for arbitrary atom subsets of the whole structure. Oracle: no surviving usable atom record => ValueError; otherwise the call completes; every amino-acid ionizable group whose defining atom survives is reported.",
+      'text': "RESTRICTED SCOPE: C12 is decided only for the loss patterns a storage or transport fault produces at the reader seam - crash-truncation, one lost record, lost blocks, lost head at every record boundary, runs/windows/pairs of whole residues, partial residues, periodic loss (exhaustive per workload file) plus seeded multiple and random-rate losses (patterns F1-F13, DESIGN 12.6), every subset of the records of one small residue and seeded subsets of larger residues/ligands (F14), name-keyed systematic losses such as CA-only / backbone-only / OXT-stripped files (F15, F16), and different atoms lost from different conformations of a multi-conformation file (F17) - delivered as path, stream and CLI input; not for arbitrary atom subsets of the whole structure. Oracle: no surviving usable atom record => ValueError; otherwise the call completes; every amino-acid ionizable group whose defining atom survives is reported (for multi-conformation files: side-chain groups whose defining atom survives in any conformation). Failures that need earlier calls in the same process are replayed with that history and reported too.",
       'design_ref': 'DESIGN.md §5, §12.6'},
    'level_note': "Only ATOM/HETATM records are lost (TER/MODEL lines survive), so each faulted file is exactly a valid structure minus a subset of atoms. Torn records are excluded (malformed, not missing). Census clause covers amino-acid groups only and API deliveries only (the CLI summary omits penalised groups by design); expectations are the groups the complete file reports whose defining record (and, for a chain start made by a preceding OXT, that OXT) survives; ligand/ion groups are covered by the no-error clause. The census model reads the working tree's propka.cfg for group mapping and ignorable residues.",
   })
